@@ -70,7 +70,7 @@ def _gen_batches(tape, nkeys):
     d = []
     for _ in range(tape.draw(3, 'nnoise')):
       cmd = tape.pick(['OKAY', 'WRTE', 'CLSE', 'SYNC', 'OPEN'], 'noise')
-      data = 'n' if cmd in ('WRTE', 'OPEN') else ''
+      data = tape.pick(['n', '5%'], 'ndata') if cmd in ('WRTE', 'OPEN') else ''
       batch.append((cmd, tape.draw(3, 'na'), tape.draw(3, 'nb'), data))
       d.append('noise:' + cmd)
     last = tape.weighted([(4, 'cnxn'), (5, 'auth_token'), (1, 'auth_other'), (2, 'silence'), (1, 'corrupt'),
@@ -80,13 +80,13 @@ def _gen_batches(tape, nkeys):
       batch.append(('CNXN', 0x01000000, md, 'device:SER%d:some:banner' % b))
       d.append('CNXN:%d' % md)
     elif last == 'bad_banner':
-      batch.append(('CNXN', 0x01000000, 64, 'nobanner'))
+      batch.append(('CNXN', 0x01000000, 64, tape.pick(['nobanner', 'no%banner 100%'], 'badbanner')))
       d.append('CNXN:malformed')
     elif last == 'auth_token':
       batch.append(('AUTH', 1, 0, 'TOKEN%d' % b))
       d.append('AUTH:token')
     elif last == 'auth_other':
-      batch.append(('AUTH', tape.pick([2, 3, 0], 'atype'), 0, 'TOKEN%d' % b))
+      batch.append(('AUTH', tape.pick([2, 3, 0], 'atype'), 0, tape.pick(['TOKEN%d' % b, 'TOK%%EN %d%%s' % b], 'otoken')))
       d.append('AUTH:other')
     elif last == 'corrupt':
       h = wadb.header('CNXN', 1, 2, 'device:S:b', cksum=7)
